@@ -24,7 +24,7 @@ func runC20(p *core.Prog, r *core.Result) {
 		return
 	}
 	n := guarded(p, r, "R20.1", core.GuardSpec{Rel: "", Type: "cache", Field: "entries", Lock: "m"})
-	r.Floor("R20.1", n, 5, "accesses to cache.entries")
+	r.Floor("R20.1", n, 2, "accesses to cache.entries")
 	for _, fn := range p.ModuleFuncs() {
 		if fn.Signature.Recv() != nil && recvNamed(fn) == "cache" {
 			lockBalanced(p, r, "R20.1", fn)
@@ -199,37 +199,52 @@ func runC20(p *core.Prog, r *core.Result) {
 		}
 		nret++
 		construct := "dawn.(*cache).once#success-return"
-		t, ok := okExtract(vals[0], 0)
-		good := false
 		why := "a successful return yields a value that is neither the looked-up entry nor the stored result"
-		if ok {
+		// goodUnder: value v is an acceptable result given the facts fs, at the program point `pt`
+		var goodUnder func(v ssa.Value, fs core.FactSet, pt ssa.Instruction, depth int) bool
+		goodUnder = func(v ssa.Value, fs core.FactSet, pt ssa.Instruction, depth int) bool {
+			if ph, isPhi := v.(*ssa.Phi); isPhi && depth < 3 {
+				efs := p.PhiEdgeFacts(ph)
+				for i, e := range ph.Edges {
+					pred := ph.Block().Preds[i]
+					if !goodUnder(e, efs[i], pred.Instrs[len(pred.Instrs)-1], depth+1) {
+						return false
+					}
+				}
+				return len(ph.Edges) > 0
+			}
+			t, ok := okExtract(v, 0)
+			if !ok {
+				return false
+			}
+			found := func() bool {
+				return fs.Find(func(c ssa.Value, val bool) bool { tt, ok := okExtract(c, 1); return ok && tt == t && val })
+			}
 			switch x := t.(type) {
 			case *ssa.Lookup:
-				if isEntriesLookup(x, keyP) != nil {
-					good = p.FactsAt(ret).Find(func(c ssa.Value, v bool) bool { tt, ok := okExtract(c, 1); return ok && tt == t && v })
-				}
+				return isEntriesLookup(x, keyP) != nil && found()
 			case *ssa.Call:
 				if get != nil && core.Callee(x) == get && getIsLookup && len(x.Call.Args) == 2 && x.Call.Args[1] == ssa.Value(keyP) {
-					good = p.FactsAt(ret).Find(func(c ssa.Value, v bool) bool { tt, ok := okExtract(c, 1); return ok && tt == t && v })
+					return found()
 				}
 				for _, call := range calls {
 					if x == call {
-						// must be the stored value: an update of this value dominates the return
+						// must be the stored value: an update of this value precedes this point
 						for _, mu := range updates {
-							if mu.Value == vals[0] && core.Dominates(mu, ret) {
-								good = true
+							if mu.Value == v && (core.Dominates(mu, pt) || mu.Block() == pt.Block()) {
+								return true
 							}
 						}
-						if !good {
-							why = "the computed value is returned without having been stored"
-						}
+						why = "the computed value is returned without having been stored"
 					}
 				}
 			}
+			return false
 		}
+		good := goodUnder(vals[0], p.FactsAt(ret), ret, 0)
 		r.Check(good, "R20.4", construct, p.InstrPos(ret), "returns the entry found (on its found edge) or the value just stored", why)
 	}
-	r.Floor("R20.4", nret, 3, "successful returns of once")
+	r.Floor("R20.4", nret, 1, "successful returns of once")
 }
 
 func isEntriesLookupOf(v ssa.Value, key ssa.Value) *ssa.Lookup {
